@@ -24,8 +24,8 @@ type (
 		Op   string
 		X, Y Expr
 	}
-	ECond  struct{ C, A, B Expr }
-	ECall  struct {
+	ECond struct{ C, A, B Expr }
+	ECall struct {
 		Fun  string // plain or qualified name
 		Args []Expr
 	}
